@@ -24,7 +24,10 @@ def nsync_includes():
             os.path.join(REPO, "platform/posix"),
             os.path.join(REPO, "platform/x86_64"),
             os.path.join(REPO, "public"),
-            os.path.join(REPO, "internal")]
+            os.path.join(REPO, "internal"),
+            # only for wrapper TUs that textually #include an unmodified .c file
+            os.path.join(REPO, "platform/linux/src"),
+            os.path.join(REPO, "platform/posix/src")]
 
 
 @dataclass
@@ -44,6 +47,7 @@ class Group:
     solver: str = "sat"                   # sat | cadical | cvc5 | z3
     unwind: int = 12
     unwindset: List[str] = field(default_factory=list)
+    unwind_fn: Dict[str, int] = field(default_factory=dict)   # per-function loop bound; ids are read from the instrumented binary
     object_bits: Optional[int] = None
     kind: str = "proof"                   # proof | bounded | lemma
     bound: str = ""                       # text describing the bound when kind == bounded
@@ -145,16 +149,29 @@ def abspath(p):
     return os.path.join(VERIF, p)
 
 
-def gen_loop_contracts(g: Group, gb: str, wd: str):
+def gen_loop_contracts(g: Group, gb: str, wd: str, dfcc_cmd):
     """Resolve source-level names in the loop-contract spec to CBMC's mangled
-    symbols and write the JSON side file.  Raises Infra on any mismatch."""
+    symbols and write the JSON side file.  Raises Infra on any mismatch.
+    Loop ids are those goto-instrument --dfcc itself uses: it first drops the
+    do{}while(0) pseudo-loops of ASSERT macros and renumbers, so the ids are
+    read from a preliminary instrumentation pass without loop contracts."""
+    pre = os.path.join(wd, "pre.gb")
+    rc, out, err, _ = run(dfcc_cmd + [gb, pre], 600, mem_gb=g.mem_gb, cwd=wd)
+    if rc != 0:
+        raise Infra("preliminary dfcc pass failed: " + (err or out)[-2000:])
+    rc, outp, err, _ = run(["goto-instrument", "--show-loops", pre], 120)
+    outp = outp.replace("_wrapped_for_contract_checking", "")
+    real: Dict[str, set] = {}
+    for m in re.finditer(r"^Loop (\S+?)\.(\d+):\n\s+file \S+ line (\d+)", outp, re.M):
+        real.setdefault(m.group(1), set()).add(int(m.group(3)))
+    # the contracts file is keyed by the ORIGINAL numbering (by back-edge position, inner loops first); the spec
+    # lists the real loops in order of the source line cbmc reports for them
     rc, out, err, _ = run(["goto-instrument", "--show-loops", gb], 120)
-    # loop ids are numbered by back-edge position (inner loops first); the spec lists loops in
-    # textual order of their heads, so sort by source line
     loops_per_fn: Dict[str, List[str]] = {}
     tmp: Dict[str, list] = {}
     for m in re.finditer(r"^Loop (\S+?)\.(\d+):\n\s+file \S+ line (\d+)", out, re.M):
-        tmp.setdefault(m.group(1), []).append((int(m.group(3)), int(m.group(2))))
+        if int(m.group(3)) in real.get(m.group(1), set()):
+            tmp.setdefault(m.group(1), []).append((int(m.group(3)), int(m.group(2))))
     for fn, lst in tmp.items():
         loops_per_fn[fn] = [str(i) for (_, i) in sorted(lst)]
     rc, sym, err, _ = run(["goto-instrument", "--show-symbol-table", gb], 120)
@@ -233,7 +250,7 @@ def run_group(g: Group, prop: str, keep_trace=True) -> Result:
             for r in g.replace:
                 cmd += ["--replace-call-with-contract", r]
             if g.loops is not None:
-                lf = gen_loop_contracts(g, cur, wd)
+                lf = gen_loop_contracts(g, cur, wd, list(cmd))
                 cmd += ["--loop-contracts-file", lf, "--apply-loop-contracts"]
             cmd += g.extra_instrument
             cmd += [cur, b]
@@ -242,8 +259,15 @@ def run_group(g: Group, prop: str, keep_trace=True) -> Result:
                 raise Infra("goto-instrument --dfcc failed: " + (err or out)[-3000:])
             cur = b
         cmd = ["cbmc", cur, "--json-ui", "--drop-unused-functions", "--unwind", str(g.unwind), "--unwinding-assertions"] + g.checks
-        if g.unwindset:
-            cmd += ["--unwindset", ",".join(g.unwindset)]
+        uws = list(g.unwindset)
+        if g.unwind_fn:
+            rc3, out3, err3, _ = run(["goto-instrument", "--show-loops", cur], 120)
+            for m in re.finditer(r"^Loop (\S+?)\.(\d+):", out3, re.M):
+                base = m.group(1).replace("_wrapped_for_contract_checking", "")
+                if base in g.unwind_fn:
+                    uws.append(f"{m.group(1)}.{m.group(2)}:{g.unwind_fn[base]}")
+        if uws:
+            cmd += ["--unwindset", ",".join(uws)]
         if g.object_bits:
             cmd += ["--object-bits", str(g.object_bits)]
         if g.malloc_may_fail:
